@@ -387,30 +387,30 @@ Corollary emitted_stubs_canonical cfg s :
   In s (grpc_stubs cfg) -> exists r, In r CANON /\ cr_method r = s_name s /\ s_path s = grpc_path r /\ s_req s = cr_in r.
 Proof. intro H. apply canonical_paths_and_request_types. now apply grpc_stubs_incl in H. Qed.
 
-Definition resp_ok_but_wait (s : stub) : bool := String.eqb (s_name s) "WaitOperation" || stub_resp_ok s.
-Lemma stub_resp_checked : forallb resp_ok_but_wait STUB_TMPL = true.
+Lemma stub_resp_checked : forallb stub_resp_ok STUB_TMPL = true.
 Proof. vm_compute. reflexivity. Qed.
 
-Theorem canonical_response_types_partial s :
-  In s STUB_TMPL -> s_name s <> "WaitOperation" ->
-  exists r, In r CANON /\ cr_method r = s_name s /\ resp_canonical s r = true.
+(* every stub deserializes the canonical response type; None exactly for google.protobuf.Empty
+   (before /repo e72fa5d the WaitOperation stub had no deserializer and refuted this) *)
+Theorem canonical_response_types s :
+  In s STUB_TMPL -> exists r, In r CANON /\ cr_method r = s_name s /\ resp_canonical s r = true.
 Proof.
-  intros H Hn. pose proof (proj1 (forallb_forall _ _) stub_resp_checked s H) as C. unfold resp_ok_but_wait in C.
-  apply orb_true_iff in C as [C|C]; [apply String.eqb_eq in C; contradiction|].
+  intros H. pose proof (proj1 (forallb_forall _ _) stub_resp_checked s H) as C.
   unfold stub_resp_ok in C. destruct (stub_row s) as [r|] eqn:R; [|discriminate].
   apply stub_row_some in R as [R1 R2]. exists r. auto.
 Qed.
 
-(* WaitOperation: response_deserializer=None although the canonical response is google.longrunning.Operation *)
-Theorem canonical_response_types_refuted :
-  exists s r, In s STUB_TMPL /\ In r CANON /\ cr_method r = s_name s /\ resp_canonical s r = false.
+Corollary emitted_stubs_canonical_response cfg s :
+  In s (grpc_stubs cfg) -> exists r, In r CANON /\ cr_method r = s_name s /\ resp_canonical s r = true.
+Proof. intro H. apply canonical_response_types. now apply grpc_stubs_incl in H. Qed.
+
+(* REST: whichever binding of the rule transcode matches, the request carries a body exactly when that binding has one
+   (before /repo 869bd41 the FIRST binding of the rule decided) *)
+Theorem rest_body_follows_matched_binding opts o :
+  In o opts -> rest_sends_body opts o = has_body o.
 Proof.
-  exists (mkS "WaitOperation" GOps "/google.longrunning.Operations/WaitOperation" "google.longrunning.WaitOperationRequest" None).
-  destruct (find (fun r => String.eqb (cr_method r) "WaitOperation") CANON) as [r|] eqn:F; [|vm_compute in F; discriminate].
-  exists r. pose proof F as F'. apply find_some in F' as [F1 F2]. apply String.eqb_eq in F2.
-  repeat split; try assumption.
-  - vm_compute. tauto.
-  - vm_compute in F. inversion F. reflexivity.
+  intro H. unfold rest_sends_body, rest_body_defined. destruct (has_body o) eqn:B; [|apply andb_false_r].
+  rewrite andb_true_r. apply existsb_exists. exists o. auto.
 Qed.
 
 (* client templates: the routing header names the resource-name field of the canonical request *)
@@ -504,6 +504,11 @@ Example ex_cfg_selection :
   map m_name (client_methods Async ex_cfg) = ["get_operation"; "set_iam_policy"; "list_locations"] /\
   mixin_table_keys ex_cfg = ["list_locations"; "set_iam_policy"; "get_operation"].
 Proof. vm_compute. repeat split. Qed.
+(* a rule whose first binding has no body and whose additional binding has one (the former witness of the REST finding) *)
+Example ex_mixed_bindings :
+  let opts := rule_options (mkRule "google.iam.v1.IAMPolicy.GetIamPolicy" (mkB "get" "/v1/{resource=a/*}:get" "") [mkB "post" "/v1/{resource=b/*}:get" "*"]) in
+  rest_body_defined opts = true /\ map (rest_sends_body opts) opts = [false; true].
+Proof. vm_compute. split; reflexivity. Qed.
 
 (* the API's own SetIamPolicy makes all three IAM mixins yield *)
 Definition ex_override : config :=
